@@ -5,6 +5,9 @@ Case kinds (field 'kind'):
           (spelling 'plus' = quote_plus, 'quote' = quote(safe='')) and parsed through `via`
           (query | forms | params_q | params_f | direct); model gets the raw encoded string
   raw     an arbitrary string parsed through `via` (query | forms | direct | params with a body)
+  seq     ONE request with a query string and an urlencoded body ('qpairs'/'bpairs' encoded with urlencode, or
+          raw 'qs'/'body'); query / forms / params are read in the generated 'order' (with repeats) and every
+          read is observed; the oracle also reads each accessor on a fresh request
   prim    primitive-level comparison of lib/Utf8.v and lib/Pct.v with str.encode / bytes.decode /
           urllib.parse (field 'op')
 Strings are lists of code points everywhere (JSON-able even with lone surrogates)."""
@@ -24,16 +27,22 @@ RULE = ('cases = corpus + random: (a) round trips: 0..6 pairs over an alphabet r
         'by urllib.parse.urlencode with quote_plus or quote(safe="") and parsed through Request.query, '
         'Request.forms (urlencoded body via a real environ), Request.params and parse_qsl directly; (b) raw strings '
         'with stray "%", "%zz", "%e9" (invalid UTF-8), "&&", "==", "=v", trailing separators, raw non-ASCII and lone '
-        'surrogates; (c) primitives: utf8 encode / strict decode / replace decode on boundary code points and '
+        'surrogates; (a2) ONE request with query string and urlencoded body (keys shared between both sides), '
+        'query/forms/params read in a generated order with repeats, every read observed and compared with the '
+        'grouping/merge and with a fresh request; (c) primitives: utf8 encode / strict decode / replace decode on boundary code points and '
         'malformed byte strings, quote / quote_plus / unquote / unquote_to_bytes / urlencode. thorough adds every '
         'raw string of length <= 5 over "a=&+%4" through parse_qsl and Request.query, and every byte string of length <= 3 '
         '(<= 4 behind a 4-byte lead) over the 19 boundary bytes of the UTF-8 decoder (exhaustive). '
         'non-trivial = round trip with >= 2 pairs containing a repeated key or a character outside [A-Za-z0-9], '
-        'or raw string containing "%" or at least two separators, or a primitive case with a non-ASCII/malformed '
+        'or raw string containing "%" or at least two separators, or a read sequence on a request with both parts '
+        'in which query or forms is read after params, or a primitive case with a non-ASCII/malformed '
         'input; distinct by the full input')
 TRUSTED = ['modelled, not verified: CPython urllib.parse.unquote / _unquote_impl and the UTF-8 codec with '
-           'errors="replace" (coq/lib/Pct.v, coq/lib/Utf8.v: re-implemented by hand, tied by the primitive-level '
-           'correspondence of this check); Python dict insertion order (association list)',
+           'errors="strict"/"replace" (coq/lib/Pct.v, coq/lib/Utf8.v: re-implemented by hand following '
+           'Objects/stringlib/codecs.h and urllib/parse.py, tied by the primitive-level correspondence of this check; '
+           'internal consistency is proved: decode(encode s) = s, decoder soundness, split("%") form = in-place form); '
+           'Python dict insertion order (association list); the aliasing of the list object between _lists[k] and '
+           'the target dict (modelled by writing both)',
            'spec side: urllib.parse.quote / quote_plus / urlencode are re-stated in coq/lib/Pct.v and compared with '
            'urllib on every run; the round-trip theorem is about those spec encoders',
            'not modelled: _get_body_string size limits (BodySizeError for bodies above max_memfile_size), '
@@ -78,6 +87,15 @@ def prim(op, arg):
     return dict(kind='prim', op=op, arg=arg)
 
 
+def seq(qpairs, bpairs, order, spelling='plus'):
+    return dict(kind='seq', qpairs=[[S(k), S(v)] for k, v in qpairs], bpairs=[[S(k), S(v)] for k, v in bpairs],
+                spelling=spelling, order=list(order))
+
+
+ORDERS = [['params', 'query'], ['query', 'params', 'query'], ['forms', 'params', 'query', 'forms'],
+          ['params', 'forms', 'query', 'params'], ['query', 'forms', 'params'], ['params', 'params', 'query', 'forms']]
+
+
 def corpus():
     out = [
         rt([('a', '1'), ('b', '2'), ('a', '3')]),
@@ -97,6 +115,12 @@ def corpus():
         raw('a=1&b=2', 'params', body=S('b=3&c=4&a=5&a=6')), raw('', 'params', body=S('x=1')),
         raw('', 'query'), raw('', 'forms'), raw('', 'direct'), raw('q=1', 'params', body=[]),
         raw('a=1&a=2', 'params', body=S('a=3')), raw('k', 'params', body=[0xC3, 0xA9, 0x3D, 0xFF]),
+        # params must not alias/mutate the cached query dict (seeded edit: params = self.query; params.update(forms))
+        seq([('id', '7'), ('tag', 'x'), ('tag', 'y')], [('id', '99'), ('tag', 'z'), ('new', '1')], ['params', 'query']),
+        seq([('id', '7'), ('tag', 'x'), ('tag', 'y')], [('id', '99'), ('tag', 'z'), ('new', '1')],
+            ['forms', 'params', 'query', 'forms']),
+        seq([('a', '1')], [('b', '2')], ['query', 'params', 'query'], 'quote'),
+        dict(kind='seq', qs=S('a=1&=x&a=%e9'), body=S('a=2&b&%zz'), order=['params', 'query', 'forms', 'params']),
         rt([], 'plus', 'query'), rt([('a', '')], 'plus', 'direct'), rt([('a', ''), ('a', '')], 'quote', 'query'),
         rt([(' ', ' '), ('+', '+'), ('%', '%'), ('&', '&'), ('=', '=')], 'plus', 'query'),
         rt([(' ', ' '), ('+', '+'), ('%', '%'), ('&', '&'), ('=', '=')], 'quote', 'direct'),
@@ -193,7 +217,17 @@ def rand_bytes(rng):
 def gen(rng, n):
     for _ in range(n):
         r = rng.random()
-        if r < 0.45:
+        if r < 0.12:
+            order = list(rng.choice(ORDERS)) if rng.random() < 0.5 else \
+                [rng.choice(['query', 'forms', 'params']) for _ in range(rng.randrange(2, 6))]
+            if rng.random() < 0.75:
+                pool = [rand_text(rng, 1, 3) for _ in range(rng.randrange(1, 4))]     # shared keys on both sides
+                yield dict(kind='seq', spelling=rng.choice(['plus', 'quote']), order=order,
+                           qpairs=[[list(rng.choice(pool)), rand_text(rng, 0, 4)] for _ in range(rng.randrange(0, 5))],
+                           bpairs=[[list(rng.choice(pool)), rand_text(rng, 0, 4)] for _ in range(rng.randrange(0, 5))])
+            else:
+                yield dict(kind='seq', qs=rand_raw(rng), body=[x for x in rand_raw(rng) if x < 256], order=order)
+        elif r < 0.45:
             pool = [rand_text(rng, 1, 4) for _ in range(rng.randrange(1, 4))]
             pairs = [[list(rng.choice(pool)), rand_text(rng, 0, 5)] for _ in range(rng.randrange(0, 7))]
             yield dict(kind='rt', pairs=pairs, spelling=rng.choice(['plus', 'quote']),
@@ -322,9 +356,48 @@ def run_prim(op, arg):
     raise ValueError(op)
 
 
+def seq_strings(case):
+    """-> (query string, body bytes) of a 'seq' case"""
+    if 'qpairs' in case:
+        from urllib.parse import urlencode, quote
+        kw = {} if case['spelling'] == 'plus' else dict(safe='', quote_via=quote)
+        q = urlencode([(T(k), T(v)) for k, v in case['qpairs']], **kw)
+        b = urlencode([(T(k), T(v)) for k, v in case['bpairs']], **kw)
+        return q, b.encode('ascii')
+    return T(case['qs']), bytes(case['body'])
+
+
+def seq_request(qs, body):
+    from ombott import Request
+    env = environ('POST', '/', QUERY_STRING=qs)
+    env['wsgi.input'] = io.BytesIO(body)
+    env['CONTENT_LENGTH'] = str(len(body))
+    env['CONTENT_TYPE'] = 'application/x-www-form-urlencoded'
+    return Request(env)
+
+
+def run_seq(case):
+    qs, body = seq_strings(case)
+    try:
+        rq = seq_request(qs, body)
+        reads = [[a, dump_dict(getattr(rq, a))] for a in case['order']]      # every read is dumped at once
+        fresh = {a: dump_dict(getattr(seq_request(qs, body), a)) for a in ('query', 'forms', 'params')}
+    except Exception as e:
+        return dict(status='raised', exc=type(e).__name__)
+    return dict(status='ok', reads=reads, fresh=fresh)
+
+
+def project(obs, case):
+    if case['kind'] == 'seq' and 'fresh' in obs:
+        return dict(status=obs['status'], reads=obs['reads'])
+    return obs
+
+
 def run_impl(case):
     if case['kind'] == 'prim':
         return run_prim(case['op'], case['arg'])
+    if case['kind'] == 'seq':
+        return run_seq(case)
     from ombott import Request
     from ombott.request_pkg.helpers import parse_qsl
     via, qs, body = case_strings(case)
@@ -354,6 +427,9 @@ def encode(case):
         if op in ('urlencode', 'urlencode_q'):
             return [PRIM_CODE[op]] + enc_list(arg, lambda kv: enc_str(kv[0]) + enc_str(kv[1]))
         return [PRIM_CODE[op]] + enc_str(arg)
+    if case['kind'] == 'seq':
+        qs, body = seq_strings(case)
+        return [4] + enc_str(S(qs)) + enc_str(body) + enc_list(case['order'], lambda a: [KIND_CODE[a]])
     via, qs, body = case_strings(case)
     if via == 'forms':
         return [1] + enc_str(body)
@@ -368,18 +444,22 @@ def decode(out, case):
         if case['op'] in ('utf8_encode', 'utf8_dec'):
             return dict(v=r.str() if r.bool() else None)
         return dict(v=r.str())
+    def item(q):
+        k = q.str()
+        if q.int() == 0:
+            return [k, ['s', q.str()]]
+        return [k, ['l', q.list(lambda z: z.str())]]
+    if case['kind'] == 'seq':
+        def one(q):
+            tag = q.int()
+            return q.list(item) if tag == 0 else 'model_tag_%d' % tag
+        return dict(status='ok', reads=[[a, d] for a, d in zip(case['order'], r.list(one))])
     tag = r.int()
     if tag != 0:
         return dict(status='model_tag_%d' % tag)
     via = case_strings(case)[0]
     if via == 'direct':
         return dict(status='ok', pairs=r.list(lambda q: [q.str(), q.str()]))
-
-    def item(q):
-        k = q.str()
-        if q.int() == 0:
-            return [k, ['s', q.str()]]
-        return [k, ['l', q.list(lambda z: z.str())]]
     return dict(status='ok', items=r.list(item))
 
 
@@ -413,6 +493,8 @@ def oracle(case, obs):
         return None
     if obs.get('status') != 'ok':
         return 'parsing raised %s' % obs.get('exc', obs)
+    if case['kind'] == 'seq':
+        return oracle_seq(case, obs)
     if case['kind'] == 'raw':
         for it in obs.get('items', []):
             if it[1][0] not in ('s', 'l') or (it[1][0] == 'l' and len(it[1][1]) < 2):
@@ -433,6 +515,35 @@ def oracle(case, obs):
     return None
 
 
+def merge(qitems, fitems):
+    """params: the query mapping, form values replacing query values of the same key, new form keys behind"""
+    out = [list(it) for it in qitems]
+    pos = {tuple(it[0]): i for i, it in enumerate(out)}
+    for k, v in fitems:
+        if tuple(k) in pos:
+            out[pos[tuple(k)]] = [k, v]
+        else:
+            pos[tuple(k)] = len(out)
+            out.append([k, v])
+    return out
+
+
+def oracle_seq(case, obs):
+    want = dict(obs['fresh'])          # what each accessor returns on a request of its own
+    if 'qpairs' in case:
+        qp = [(T(k), T(v)) for k, v in case['qpairs']]
+        bp = [(T(k), T(v)) for k, v in case['bpairs']]
+        if all(k for k, _ in qp + bp):
+            want = dict(query=group(qp), forms=group(bp))
+            want['params'] = merge(want['query'], want['forms'])
+    for n, (a, got) in enumerate(obs['reads']):
+        if got != want[a]:
+            return ('read #%d (%s) after %s returned %s, expected %s: a read depends on what was read before or '
+                    'differs from what was sent' % (n + 1, a, '/'.join(x for x, _ in obs['reads'][:n]) or 'nothing',
+                                                    short(got), short(want[a])))
+    return None
+
+
 def short(items):
     return repr([(T(k), T(v[1]) if v[0] == 's' else [T(x) for x in v[1]] if v[0] == 'l' else v) for k, v in items])[:300]
 
@@ -445,6 +556,11 @@ def nontrivial(case, obs):
     if case['kind'] == 'raw':
         q = case['qs'] + (case.get('body') or [])
         return 37 in q or sum(1 for c in q if c in (38, 61)) >= 2
+    if case['kind'] == 'seq':
+        o = case['order']
+        later = any(a in ('query', 'forms') and 'params' in o[:i] for i, a in enumerate(o))
+        both = (case.get('qpairs') and case.get('bpairs')) or (case.get('qs') and case.get('body'))
+        return bool(later and both)
     a = case['arg']
     flat = a if (not a or isinstance(a[0], int)) else [c for kv in a for s in kv for c in s]
     return any(c >= 128 or c == 37 for c in flat)
@@ -462,6 +578,12 @@ def classify(case, obs):
         keys = [tuple(k) for k, _ in case['pairs']]
         return 'rt/%s/%s/%s' % (case['via'], case['spelling'],
                                 'repeated' if len(set(keys)) < len(keys) else 'distinct' if keys else 'empty')
+    if case['kind'] == 'seq':
+        shared = 'n/a'
+        if 'qpairs' in case:
+            shared = 'shared-key' if {tuple(k) for k, _ in case['qpairs']} & {tuple(k) for k, _ in case['bpairs']} \
+                else 'disjoint'
+        return 'seq/%s/%s/%s' % ('pairs' if 'qpairs' in case else 'raw', shared, obs.get('status'))
     q = case['qs']
     return 'raw/%s/%s/%s' % (case['via'], 'pct' if 37 in q else 'nopct', obs.get('status'))
 
@@ -479,6 +601,15 @@ def shrink(case):
                 yield dict(case, pairs=ps[:i] + [[k, v[:j] + v[j + 1:]]] + ps[i + 1:])
         if case['via'] != 'direct':
             yield dict(case, via='direct')
+    elif case['kind'] == 'seq':
+        o = case['order']
+        for i in range(len(o)):
+            if len(o) > 1:
+                yield dict(case, order=o[:i] + o[i + 1:])
+        for f in ('qpairs', 'bpairs', 'qs', 'body'):
+            x = case.get(f)
+            for i in range(len(x or [])):
+                yield dict(case, **{f: x[:i] + x[i + 1:]})
     elif case['kind'] == 'raw':
         q = case['qs']
         for i in range(len(q)):
@@ -496,9 +627,31 @@ def shrink(case):
 PREDICATES = {}
 
 MANIFEST = dict(
-    text=('Proof: see coq/props/C18.v.'),
-    note=('Trusted: Coq kernel + vm_compute; extraction (ExtrOcamlBasic only); the Python harness; the hand-written '
-          'models of urllib.parse.unquote and of the UTF-8 codec (tied by primitive-level correspondence).'),
-    technique='Coq proof (symbolic UTF-8 arithmetic, scanner invariant) + model/implementation correspondence',
+    text=('Proof: coq/props/C18.v, 12 theorems, all closed under the global context. C18_roundtrip: for ALL lists of '
+          'pairs with non-empty keys and scalar text (any characters incl. "= & + % space", controls, Latin-1, '
+          'non-BMP; any key repetition), urlencode (quote_plus and quote(safe="") spellings) followed by '
+          'Request.query / Request.forms (latin1 step included) gives exactly group(pairs) = keys in first-occurrence '
+          'order, single values as str, repeated keys as lists in submission order, and parse_qsl gives the pairs '
+          'verbatim; C18_params for Request.params. C18_scanner_refines_split_spec: on EVERY string the index '
+          'arithmetic of the hand-written scanner equals a declarative splitting spec. C18_total / C18_fuel_suffices: '
+          'every string parses to a value, i strictly increases. The shared codecs are proved too: UTF-8 '
+          'decode(encode(s)) = s proved symbolically for all scalar text, the strict decoder accepts only canonical '
+          'encodings, unquote(quote(s)) = s, the model of _unquote_impl equals the split("%") formulation of the '
+          'source. The hand-written model (coq/model/Qsl.v, coq/lib/Pct.v, coq/lib/Utf8.v) is tied to /repo and to '
+          'CPython on every run by a differential correspondence (extracted OCaml + vm_compute) at Request.query, '
+          'Request.forms, Request.params, parse_qsl and at the primitives (str.encode, bytes.decode strict/replace, '
+          'urllib.parse quote/quote_plus/unquote/unquote_to_bytes/urlencode) and on sequences of reads of '
+          'query/forms/params on ONE request in generated orders (C18_access_order_independent: no read depends '
+          'on what was read before), and an independent oracle (10-line '
+          'grouping) finds the concrete failing input when a tie breaks.'),
+    note=('Trusted: Coq kernel + vm_compute; extraction (ExtrOcamlBasic only); the Python harness; that the '
+          'hand-written models of urllib.parse.unquote/quote/urlencode and of the UTF-8 codec (errors=strict/replace) '
+          'are what CPython does (tied by primitive-level correspondence incl. exhaustive byte strings over the '
+          'decoder\'s boundary bytes in the thorough tier, not proved). Excluded by hypothesis: empty keys (the '
+          'code drops them; "=v" is then read as key "v"), lone surrogates (cannot be url-encoded). Not modelled: '
+          'body size limits, environ caching, JSON/multipart branches of POST.'),
+    technique=('Coq proof (symbolic UTF-8 arithmetic with lia + div/mod equations, scanner invariant over '
+               'prefix/suffix decompositions, closure-state invariant for list promotion) + model/implementation '
+               'correspondence'),
     design_ref='DESIGN.md section 4, C18; section 3 (Utf8.v, Pct.v)',
 )
